@@ -29,6 +29,10 @@ def weights_of(spec_v, obs, vo):
     return ws
 
 
+# the weights are derived per verification call: the adversary observes and attacks in one and the same verifying mode, each mode in turn
+VMODES = ["VerifyOnly", "RecoverAndVerify"]
+
+
 def make_batch(rng, n, T, quick):
     bits = rng.choice([2, 4])
     mems = []
@@ -51,7 +55,7 @@ def run(run: Run):
         batches.append((bi, T, n, mems))
     # round 1: honest batches -> observe the weights
     specs1 = [{"id": f"c08-h{bi}", "group": "fm", "members": mems, "with_gens": False,
-               "verifies": [{"mode": "VerifyOnly", "vmembers": [gen.vmember(mm, i) for i, mm in enumerate(mems)]}]} for (bi, T, n, mems) in batches]
+               "verifies": [{"mode": VMODES[bi % 2], "vmembers": [gen.vmember(mm, i) for i, mm in enumerate(mems)]}]} for (bi, T, n, mems) in batches]
 
     observed = {}
 
@@ -76,6 +80,7 @@ def run(run: Run):
         if not ws:
             continue
         derived, verifies, tags = [], [], []
+        amode = VMODES[bi % 2]
         base_vm = [gen.vmember(mm, i) for i, mm in enumerate(mems)]
         pairs = [(0, 1)] + ([(rng.randrange(n), rng.randrange(n))] if n > 2 else [])
         for (i, j) in pairs:
@@ -90,7 +95,7 @@ def run(run: Run):
                 vm = list(base_vm)
                 vm[i] = gen.vmember(mems[i], n + len(derived) - 2)
                 vm[j] = gen.vmember(mems[j], n + len(derived) - 1)
-                verifies.append({"mode": "VerifyOnly", "vmembers": vm})
+                verifies.append({"mode": amode, "vmembers": vm})
                 tags.append(("attack", i, j, k))
         # equal-and-opposite without weights (what cancels if all weights are equal)
         t = gen.rscalar(rng)
@@ -99,7 +104,7 @@ def run(run: Run):
         vm = list(base_vm)
         vm[0] = gen.vmember(mems[0], n + len(derived) - 2)
         vm[1] = gen.vmember(mems[1], n + len(derived) - 1)
-        verifies.append({"mode": "VerifyOnly", "vmembers": vm})
+        verifies.append({"mode": amode, "vmembers": vm})
         tags.append(("plain +-delta", 0, 1, T - 1))
         # a change of one response scalar must change the weight ratios
         for (f, idx) in [("r1", 0), ("s1", 0)] + [("d1", k) for k in range(T)]:
@@ -107,7 +112,7 @@ def run(run: Run):
             derived.append({"from": who, "ops": [{"op": "scalar_add", "field": f, "idx": idx, "hex": gen.hx(1)}]})
             vm = list(base_vm)
             vm[who] = gen.vmember(mems[who], n + len(derived) - 1)
-            verifies.append({"mode": "VerifyOnly", "vmembers": vm})
+            verifies.append({"mode": amode, "vmembers": vm})
             tags.append(("ratio", who, f, idx))
         specs2.append({"id": f"c08-a{bi}", "group": "fm", "members": mems, "derived": derived, "verifies": verifies, "_tags": tags, "_ws": ws,
                        "_T": T, "with_gens": False})
@@ -152,7 +157,7 @@ def run(run: Run):
         mems = make_batch(rng, 2, T, quick)
         dups.append((di, T, pat, mems))
     specs3 = [{"id": f"c08-d{di}", "group": "fm", "members": mems, "with_gens": False,
-               "verifies": [{"mode": "VerifyOnly", "vmembers": [gen.vmember(mems[i], i) for i in pat]}]} for (di, T, pat, mems) in dups]
+               "verifies": [{"mode": VMODES[di % 2], "vmembers": [gen.vmember(mems[i], i) for i in pat]}]} for (di, T, pat, mems) in dups]
     observed3 = {}
 
     def oracle3(run, s, o):
@@ -180,7 +185,7 @@ def run(run: Run):
             derived.append({"from": 0, "ops": [{"op": "scalar_add", "field": "d1", "idx": k, "hex": gen.hx(d0)}]})
             derived.append({"from": 1, "ops": [{"op": "scalar_add", "field": "d1", "idx": k, "hex": gen.hx(d1_)}]})
             alt = {0: 2 + len(derived) - 2, 1: 2 + len(derived) - 1}
-            verifies.append({"mode": "VerifyOnly", "vmembers": [gen.vmember(mems[i], alt[i]) for i in pat]})
+            verifies.append({"mode": VMODES[di % 2], "vmembers": [gen.vmember(mems[i], alt[i]) for i in pat]})
             tags.append(k)
         specs4.append({"id": f"c08-e{di}", "group": "fm", "members": mems, "derived": derived, "verifies": verifies, "_tags": tags, "_pat": pat, "_ws": ws, "with_gens": False})
 
@@ -196,7 +201,7 @@ def run(run: Run):
     sessions.run_sessions(run, specs4, oracle4, relevant=32 | 128 | 8 | 4, name="c08d")
     return run.finish(
         "proof",
-        "batches of 2-8 proofs (extension degrees 1-6, mixed aggregation); weights are read off the honest run, then for pairs (i, j) and every blinding coordinate k "
+        "batches of 2-8 proofs (extension degrees 1-6, mixed aggregation), each verifying mode in turn; weights are read off the honest run in that mode, then for pairs (i, j) and every blinding coordinate k "
         "two individually invalid proofs with defects (w_j t, -w_i t) on d1[k] are resubmitted (plus a plain +-delta pair), and each response scalar r1, s1, d1[k] of a "
         "member is changed to check that every weight ratio involving it changes; batches in which members repeat ([A,A,B,B], [A,B,A,B], ...) with defects cancelling over the groups of copies; the weight transcript and per-proof RNG operations are compared with the Coq "
         "model; distinct by (kind, batch size, T, coordinate, outcome)",
